@@ -49,6 +49,18 @@ def gen(params):
         for s in lookalike_strings():
             for enc in (False, True):
                 yield prog([ord(c) for c in s], enc)
+        # brackets that are NOT the host's: in the userinfo, before the last '@', with every kind of host after it
+        for ui in ("u[:]", "u:[p:w]", "[v1.x]", "[::1]", "a[b", "a]b", "[", "]:["):
+            for h in ("example.com", "1.2.3.4", "[::1]", "[fe80::1%25e]", "h:8080", "[::1]:81", ""):
+                for tail in ("/p", "", "?q", "#f"):
+                    for enc in (False, True):
+                        yield prog([ord(c) for c in "http://" + ui + "@" + h + tail], enc)
+        # a delimiter as the very LAST character, after an authority and nothing else
+        for a in ("example.com", "u:p@h:8080", "[::1]", "h:", ""):
+            for last in ("?", "#", "/", ":", "@", "?#", "#?", "/?"):
+                for sc in ("http:", "x:", ""):
+                    for enc in (False, True):
+                        yield prog([ord(c) for c in sc + "//" + a + last], enc)
         for _ in range(params["n"]):
             k = rnd.choice((2, 3, 4, 5, 6, 8, 10))
             s = "".join(rnd.choice(toks) for _ in range(k))
